@@ -252,7 +252,18 @@ def gen_system(rng, kind=None, max_species=3, max_reactions=3, max_cells=8, max_
                 sd["chstt"] = True
             else:
                 ce = [rng.random() < 0.5 for _ in envs]
-                cd = {envs[k]: ce[k] for k in range(len(envs)) if ce[k] or rng.random() < 0.5}
+                if rng.random() < 0.5:
+                    # a "default" entry plus explicit entries, falsy explicit ones under a truthy default included
+                    dflt = rng.random() < 0.65
+                    cd = {}
+                    if rng.random() < 0.5:
+                        cd["default"] = dflt
+                    for k in range(len(envs)):
+                        if ce[k] != dflt or rng.random() < 0.4:
+                            cd[envs[k]] = ce[k]
+                    cd["default"] = dflt           # (position of the key in the dict varies)
+                else:
+                    cd = {envs[k]: ce[k] for k in range(len(envs)) if ce[k] or rng.random() < 0.5}
                 sd["chstt"] = cd
         chem_env.append(ce)
         species.append(sd)
